@@ -83,3 +83,4 @@ M("matsown-theta-reset-in-main", "main.py",
 
 # ---- BIND: inner calls of line_search (round-4 sweep survivors)
 M("bind-cap-and-iteration-swapped", "linesearch.py", "x0, d, lb, ub, max_steplength_user, above_iter", "x0, d, lb, ub, above_iter, max_steplength_user", ["BIND"])
+M("const-initial-theta-zero", "bfgsmats.py", "        self.theta: float = 1.0\n", "        self.theta: float = 0.0\n", ["CONST"])
